@@ -197,7 +197,7 @@ def run(ctx):
     ctx.cov["evaluations"] += ntr
     ctx.count("transitivity instances", ntr)
     ctx.cov["known_class_instances"] = dict(known)
-    for kf in ctx.known():
+    for kf in known_entries("C06"):
         c = kf.get("class")
         if c in known:
             ctx.known_finding(kf, "%s [%d instances in this run, e.g. %s <: %s <: %s]" % ((kf["what"], known[c]) + first_known[c]))
